@@ -11,6 +11,14 @@ CHECKS = {
    technique="property-based testing: seeded proptest generators over chunk lists / byte strings / hash text, differential against an independent Merkle reference and across all in-repo code paths, metamorphic change/swap/insert/drop relations, committed golden vectors",
    text="Every generated chunk list is hashed through every code path (uploader, both validators' path, file/xorb/range/salt/HMAC helpers, streaming hasher) and compared with an independently written implementation of the published construction plus golden vectors; exploration because the quantifier is over all lists/strings, sampled with engineered branching words, repeats and extreme lengths.",
    note="Trusts the reference in harness/src/refs/merkle.rs and the blake3 crate. Precondition: equal chunk hash implies equal length; all-zero leaf hashes excluded (BLAKE3 preimage)."),
+ "C07": dict(level="exploration", design="3/C07",
+   technique="property-based testing: seeded proptest generators over chunk lists x compression scheme, round trip against the input plus differential against an independent reference xorb decoder and across the sync / async / stream decoders; exhaustive small lengths for BG4",
+   text="Round trip of generated xorbs (all schemes, all byte classes, every chunk range on small objects) checked against the original data, an independently written decoder that re-derives physical boundaries and footer, and pairwise decoder agreement under generated stream fragmentation; exploration because chunk lists and contents are unbounded.",
+   note="Trusts lz4_flex frame coding (shared with the reference decoder) and harness/src/refs/xorb.rs."),
+ "C08": dict(level="exploration", design="3/C08",
+   technique="property-based testing / structured mutation fuzzing: generated mutation programs (region-addressed byte flips, truncation, record splices, inflated counts and lengths, stale or rebuilt footers) over valid xorbs plus random inputs, oracle = independent reference decoder (acceptance implies consistency; canonical objects must be accepted), panics caught, allocation cap enforced by a counting allocator in journaled child processes; libFuzzer target in thorough tier",
+   text="Each generated (object, claimed hash) pair is run through both validators and the footer parser; acceptance is checked against a reference decoder's view of decodability, recomputed hash and footer consistency, canonical valid objects must be accepted for their own hash only, and panics / oversized allocation requests are violations. Exploration: mutation space is sampled with region-aware generators rather than enumerated.",
+   note="Trusts harness/src/refs/xorb.rs and lz4_flex. The streaming validator is allowed to ignore version-0 footers and accept footer-less objects (documented behaviour); zero-chunk objects are outside the valid-object clause."),
 }
 
 ALL = ["C%02d" % i for i in range(1, 21)]
